@@ -189,7 +189,8 @@ Inductive op :=
 | SetGutter (g : Z)
 | SetGrid (t : string) (p c : Z)
 | ClearGrid
-| Reopen.
+| Reopen
+| Other.                            (* any call that names no page setting: headers and footers, body content *)
 
 Definition with_size (s : settings) n := mkSettings n (s_cw s) (s_ch s) (s_ori s) (s_mt s) (s_mr s) (s_mb s) (s_ml s) (s_hd s) (s_fd s) (s_gw s) (s_gtype s) (s_pitch s) (s_cs s).
 Definition with_custom (s : settings) w h := mkSettings c_PageSizeCustom w h (s_ori s) (s_mt s) (s_mr s) (s_mb s) (s_ml s) (s_hd s) (s_fd s) (s_gw s) (s_gtype s) (s_pitch s) (s_cs s).
@@ -214,6 +215,7 @@ Definition step_with (fixed : bool) (st : sect) (o : op) : sect * bool :=
   | SetGrid t p c => if String.eqb t "" then (st, false) else set (with_grid g t p c) st
   | ClearGrid => (mkSect (pg st) (mar st) None, true)
   | Reopen => (st, true)
+  | Other => (st, true)
   end.
 
 Definition step := step_with true.
